@@ -308,17 +308,28 @@ def gen_exhaustive_uses(maxlen):
             yield [(("set", o[1], 10 + i) if o[0] == "set" else o) for i, o in enumerate(seq)]
 
 
+def gen_exhaustive_default_hits(maxlen):
+    """get(k, d) where d IS the stored value (99 stored, 99 asked as default; None stored through get(k) is not expressible in the
+    model's integer values): a hit is a hit whatever the default -- it returns the value and counts as a use"""
+    alpha = [("set", 1, 99), ("set", 2, 99), ("set", 3, 7), ("getd", 1, 99), ("getd", 2, 99), ("getd", 3, 99), ("getd", 1, 7), ("keys",)]
+    for n in range(2, maxlen + 1):
+        for seq in itertools.product(alpha, repeat=n):
+            if seq[0][0] != "set" or not any(o[0] == "getd" for o in seq):
+                continue
+            yield list(seq)
+
+
 def gen_random_seq(rng, n, nkeys):
     ops = []
     for i in range(n):
         k = rng.randrange(1, nkeys + 1)
         r = rng.random()
         if r < 0.35:
-            ops.append(("set", k, rng.choice([i + 10, 1, 2])))
+            ops.append(("set", k, rng.choice([i + 10, 1, 2, 99])))
         elif r < 0.55:
             ops.append(("get", k))
         elif r < 0.61:
-            ops.append(("getd", k, rng.choice([-1, 0, 99])))
+            ops.append(("getd", k, rng.choice([-1, 0, 99, 1, 2])))
         elif r < 0.65:
             ops.append(("getn", k))
         elif r < 0.75:
@@ -475,13 +486,16 @@ def run(ck: Check) -> None:
     for ops in gen_exhaustive_uses(3 if ck.quick else 4):
         for cap in ([2] if ck.quick else [1, 2]):
             seqs.append((cap, ops))
+    for ops in gen_exhaustive_default_hits(4 if ck.quick else 5):
+        for cap in ([2] if ck.quick else [1, 2, 3]):
+            seqs.append((cap, ops))
     nrand = 300 if ck.quick else 3000
     for _ in range(nrand):
         cap = ck.rng.randrange(1, 5)
         seqs.append((cap, gen_random_seq(ck.rng, ck.rng.randrange(30, 201), ck.rng.randrange(2, 7))))
     ck.exhaustive = True
     ck.extra["exhaustive_scope"] = (f"get/set/del sequences len<={maxlen} over 3 keys, caps {caps}; set/get-without-default/contains/"
-                                    f"len/items sequences len<={3 if ck.quick else 4}; construction with capacities -3..4 and +-10^9")
+                                    f"len/items sequences len<={3 if ck.quick else 4}; get-with-default sequences whose default is the stored value len<={4 if ck.quick else 5}; construction with capacities -3..4 and +-10^9")
 
     # -------- construction: ValueError exactly for a capacity below 1
     mk_cases, mk_expected = [], []
